@@ -205,9 +205,9 @@ def lean_obligations(prop: str, extra_modules=(), thorough=False) -> dict:
         res["problems"].append("audit failed: " + out[-600:])
         return res
     # parse "'X' depends on axioms: [a, b]" / "'X' does not depend on any axioms"
-    for m in re.finditer(r"'([^']+)' depends on axioms: \[([^\]]*)\]", out.replace("\n", " ")):
+    for m in re.finditer(r"'(\S+)' depends on axioms: \[([^\]]*)\]", out.replace("\n", " ")):
         res["axioms"][m.group(1)] = [a.strip() for a in m.group(2).split(",") if a.strip()]
-    for m in re.finditer(r"'([^']+)' does not depend on any axioms", out):
+    for m in re.finditer(r"'(\S+)' does not depend on any axioms", out):
         res["axioms"][m.group(1)] = []
     for nme in names:
         ax = res["axioms"].get(nme)
